@@ -91,3 +91,64 @@ Example C12_nonvacuous :
   skip_into_parts {| s_buf := [1;2;3]; s_count := None |} = @nil nat /\
   tail_into_parts {| t_buf := [1;2;3;4]; t_limit := 2 |} = [3;4].
 Proof. repeat split. Qed.
+
+(* ---------------- end to end on the model (EndToEnd.v) ----------------
+   An ObservableVector under ANY history (mutators, traversals, transactions, subscriptions, polls of
+   any subscriber at any time, drops; any capacity, so with lag and Reset), one of its subscribers,
+   and an adapter - any adapter whose step function is correct (step_ok), hence every stage and every
+   chain of this file - fed with exactly what that subscriber's stream delivers: the adapter never
+   panics, never emits an inapplicable diff, and whenever the subscriber's stream reports Pending the
+   consumer's view stands for the vector's CURRENT contents. *)
+From EB Require Import OVec OVecRun EndToEnd Head HeadFacts.
+
+Theorem C12_e2e_invariant :
+  forall (A B St : Type) (on_diff : St -> diff A -> outcome (St * list (diff B)))
+         (R : St -> list A -> list B -> Prop) (init : list A -> St * list B),
+    step_ok on_diff R -> (forall l, R (fst (init l)) l (snd (init l))) ->
+    forall (capacity : nat) (xs : list (op A)) (k : nat),
+      exists g a, e2e_run on_diff init k (ginit capacity) None xs = Some (g, a) /\
+        g = grun (ginit capacity) xs /\
+        match a with
+        | Some (st, v) => exists gh, nth_error (g_gh g) k = Some gh /\ R st (gh_replica gh) v
+        | None => length (g_gh g) <= k
+        end.
+Proof. intros A B St on_diff R init Hs Hi. exact (e2e_invariant on_diff R init Hs Hi). Qed.
+Print Assumptions C12_e2e_invariant.
+
+Theorem C12_e2e_view_at_pending :
+  forall (A B St : Type) (on_diff : St -> diff A -> outcome (St * list (diff B)))
+         (R : St -> list A -> list B -> Prop) (init : list A -> St * list B),
+    step_ok on_diff R -> (forall l, R (fst (init l)) l (snd (init l))) ->
+    forall (capacity : nat) (xs : list (op A)) (k : nat) g st v g',
+      e2e_run on_diff init k (ginit capacity) None xs = Some (g, Some (st, v)) ->
+      gstep g (OPoll k) = Ok (g', VPoll Pending) ->
+      R st (values (g_o g')) v.
+Proof. intros A B St on_diff R init Hs Hi. exact (e2e_view_at_pending on_diff R init Hs Hi). Qed.
+Print Assumptions C12_e2e_view_at_pending.
+
+(* an instance spelled out: Head with limit n on a subscriber of an ObservableVector shows exactly the
+   first n items of the vector's current contents whenever the stream is Pending *)
+Theorem C12_e2e_head :
+  forall (A : Type) (n capacity : nat) (xs : list (op A)) (k : nat) g st v g',
+    let init := fun l : list A => (snd (head_init n l), fst (head_init n l)) in
+    e2e_run head_on_diff init k (ginit capacity) None xs = Some (g, Some (st, v)) ->
+    gstep g (OPoll k) = Ok (g', VPoll Pending) ->
+    v = firstn n (values (g_o g')).
+Proof.
+  intros A n capacity xs k g st v g' init H1 H2.
+  pose (R := fun (st : head_st A) (l v : list A) => head_R st l v /\ h_limit st = n).
+  assert (Hs : step_ok head_on_diff R).
+  { intros st0 l v0 d [HR Hl] Hok.
+    destruct (head_step_bound st0 l v0 d HR Hok) as (st' & outs & l' & E1 & E2 & E3 & HR' & Hl').
+    exists st', outs, l', (firstn (h_limit st0) l').
+    split; [exact E1|]. split; [exact E2|].
+    split; [eapply apply_all_ok_bound_ok; eassumption|].
+    split; [exact HR'|]. rewrite Hl'. exact Hl. }
+  assert (Hi : forall l, R (fst (init l)) l (snd (init l))).
+  { intro l. unfold init, R. cbn [fst snd].
+    destruct (head_init_ok n l) as [E HR]. rewrite E. split; [exact HR|].
+    unfold head_init. reflexivity. }
+  destruct (e2e_view_at_pending head_on_diff R init Hs Hi capacity xs k g st v g' H1 H2) as [[Hb Hv] Hl].
+  rewrite Hl in Hv. exact Hv.
+Qed.
+Print Assumptions C12_e2e_head.
